@@ -330,6 +330,16 @@ func (b *ShelleyTransactionBody) UnmarshalCBOR(cborData []byte) error {
 	return nil
 }
 
+// MarshalCBOR returns the original bytes of a decoded transaction body, so that a
+// transaction re-assembled from its stored components (e.g. one taken from a block)
+// keeps its original encoding and therefore its fee-relevant size
+func (b *ShelleyTransactionBody) MarshalCBOR() ([]byte, error) {
+	if b.Cbor() != nil {
+		return b.Cbor(), nil
+	}
+	return cbor.EncodeGeneric(b)
+}
+
 func (b *ShelleyTransactionBody) Inputs() []common.TransactionInput {
 	items := b.TxInputs.Items()
 	ret := make([]common.TransactionInput, len(items))
